@@ -78,6 +78,7 @@ func serve(args []string) {
 		c.VhostHTTPPort = hx.FreePort(addr)
 		c.SubDomainHost = "sub.test"
 		c.TCPMuxHTTPConnectPort = hx.FreePort(addr)
+		c.VhostHTTPSPort = hx.FreePort(addr)
 		c.UserConnTimeout = 2
 		c.AllowPorts = nil
 		// the dashboard switches the in-memory statistics (shared maps updated per user connection) on
@@ -91,7 +92,7 @@ func serve(args []string) {
 		}
 		os.Exit(3)
 	}
-	fmt.Printf("READY %d %d %d\n", s.Port, s.Cfg.VhostHTTPPort, sshPort)
+	fmt.Printf("READY %d %d %d %d %d\n", s.Port, s.Cfg.VhostHTTPPort, sshPort, s.Cfg.TCPMuxHTTPConnectPort, s.Cfg.VhostHTTPSPort)
 	_, _ = io.Copy(io.Discard, os.Stdin)
 	s.Close()
 }
@@ -103,6 +104,8 @@ type child struct {
 	port   int
 	vhost  int
 	ssh    int // port of the ssh tunnel gateway (0 = not enabled)
+	tcpmux int // tcpmuxHTTPConnectPort
+	https  int // vhostHTTPSPort
 	errBuf *strings.Builder
 	done   chan struct{}
 	mu     sync.Mutex
@@ -121,7 +124,7 @@ func startChildSSH(addr string, maxPool int, keyDir string) (*child, error) {
 		return nil, err
 	}
 	c.addr = addr
-	fmt.Sscanf(line, "READY %d %d %d", &c.port, &c.vhost, &c.ssh)
+	fmt.Sscanf(line, "READY %d %d %d %d %d", &c.port, &c.vhost, &c.ssh, &c.tcpmux, &c.https)
 	return c, nil
 }
 
@@ -233,53 +236,78 @@ func runAlloc(cfg *hx.RunCfg) error {
 	samples := []string{}
 	distinct := map[string]bool{}
 	pools := []int64{0, 1, 2, 3, 5, 6, 7, 50, 1000, math.MaxInt32, math.MaxInt64, -1, -9, -10, -11, -12, -100, math.MinInt32, math.MinInt64}
-	for mi, maxPool := range []int{1, 3, 5, 50} { // 0 would be replaced by the default 5 in ServerConfig.Complete
-		c, err := startChild(fmt.Sprintf("127.0.16.%d", 10+mi), maxPool)
-		if err != nil {
-			return err
-		}
-		s := c.server()
-		for _, p := range pools {
-			if !c.alive() {
-				break
+	// one child per server maximum, run side by side (they are independent; cases are collected in the old order)
+	maxima := []int{1, 3, 5, 50} // 0 would be replaced by the default 5 in ServerConfig.Complete
+	type allocOut struct {
+		cases []string
+		fails []map[string]any
+		err   error
+	}
+	outs := make([]allocOut, len(maxima))
+	var awg sync.WaitGroup
+	for mi, maxPool := range maxima {
+		awg.Add(1)
+		go func(mi, maxPool int) {
+			defer awg.Done()
+			o := &outs[mi]
+			c, err := startChild(fmt.Sprintf("127.0.16.%d", 10+mi), maxPool)
+			if err != nil {
+				o.err = err
+				return
 			}
-			got := int64(-1)
-			peer, resp, err := s.Login(hx.LoginOpts{Mutate: func(l *msg.Login) { l.PoolCount = int(p) }})
-			crashed := false
-			if err != nil || peer == nil {
-				time.Sleep(100 * time.Millisecond)
+			defer c.stop()
+			s := c.server()
+			for _, p := range pools {
 				if !c.alive() {
-					crashed = true
-				} else if resp != nil {
-					got = -2 // refused
+					break
 				}
-			} else {
-				got = 0
-				for {
-					m, err := peer.Recv(250 * time.Millisecond)
-					if err != nil {
-						break
+				got := int64(-1)
+				peer, resp, err := s.Login(hx.LoginOpts{Mutate: func(l *msg.Login) { l.PoolCount = int(p) }})
+				crashed := false
+				if err != nil || peer == nil {
+					time.Sleep(100 * time.Millisecond)
+					if !c.alive() {
+						crashed = true
+					} else if resp != nil {
+						got = -2 // refused
 					}
-					if _, ok := m.(*msg.ReqWorkConn); ok {
-						got++
+				} else {
+					got = 0
+					for {
+						m, err := peer.Recv(250 * time.Millisecond)
+						if err != nil {
+							break
+						}
+						if _, ok := m.(*msg.ReqWorkConn); ok {
+							got++
+						}
 					}
+					peer.Close()
 				}
-				peer.Close()
+				cs := fmt.Sprintf("CAlloc %s %d %s %s", hx.Z(p), maxPool, hx.Z(got), hx.Bool(crashed))
+				o.cases = append(o.cases, cs)
+				if crashed {
+					o.fails = append(o.fails, map[string]any{"key": "frps-crash:login-poolcount", "what": "frps terminated after Login{PoolCount:" + fmt.Sprint(p) + "}: " + crashClass(c.stderr()),
+						"case": cs})
+					break
+				}
 			}
-			cs := fmt.Sprintf("CAlloc %s %d %s %s", hx.Z(p), maxPool, hx.Z(got), hx.Bool(crashed))
+		}(mi, maxPool)
+	}
+	awg.Wait()
+	for mi, o := range outs {
+		if o.err != nil {
+			return o.err
+		}
+		for _, cs := range o.cases {
 			cf.Cases = append(cf.Cases, cs)
 			distinct[cs] = true
-			dist[fmt.Sprintf("max=%d", maxPool)]++
+			dist[fmt.Sprintf("max=%d", maxima[mi])]++
 			if len(samples) < 4 {
 				samples = append(samples, cs)
 			}
-			if crashed {
-				fails = append(fails, map[string]any{"key": "frps-crash:login-poolcount", "what": "frps terminated after Login{PoolCount:" + fmt.Sprint(p) + "}: " + crashClass(c.stderr()),
-					"case": cs})
-				break
-			}
 		}
-		c.stop()
+		fails = append(fails, o.fails...)
 	}
 	cfg.St["cases"] = len(cf.Cases)
 	cfg.St["distinct_nontrivial"] = len(distinct)
@@ -935,6 +963,11 @@ func barrage(cfg *hx.RunCfg, raceMode bool) error {
 	}
 	time.Sleep(100 * time.Millisecond)
 	crashed("background-traffic", "concurrent xtcp/stcp/group registration, closure, visitor pre-checks")
+	// directed phases (srvdirected.go): raw user requests on the vhost / tcpmux ports, structured NAT-hole exchanges, a peer
+	// that writes without reading
+	if c.alive() {
+		runServerDirected(cfg, c, s, raceMode, record, crashed, &fails)
+	}
 	// directed, last (a crash here costs no random case): udp proxies closed (CloseProxy / session end) while user datagrams
 	// pour into their ports
 	if c.alive() {
